@@ -34,15 +34,17 @@ Theorem C08_names_form_history :
   forall ops s s' out, run ops s = Ok (s', out) ->
   Forall2 (fun o (a : string * bool) =>
              if snd a then exists ex, name_of (base_of o) (fst a) ex
-             else exists b sz role, o = ORole b sz role) ops out.
+             else exists b sz role named, o = ORole b sz role named) ops out.
 Proof. exact run_names_form. Qed.
 Print Assumptions C08_names_form_history.
 
-(* A name that is not new is an existing dimension with the requested role and size. *)
+(* A name that is not new is an existing dimension with the requested role and size -
+   and, when the name was set on the construct (named), of that very name. *)
 Theorem C08_name_reuse :
   forall s o s' n, step s o = Ok (s', n, false) ->
-  s' = s /\ exists b sz role, o = ORole b sz role /\
-     In n (role_list role (n_roles s)) /\ assoc n (n_dims s) = Some sz.
+  s' = s /\ exists b sz role named, o = ORole b sz role named /\
+     In n (role_list role (n_roles s)) /\ assoc n (n_dims s) = Some sz /\
+     (named = true -> n = b).
 Proof. exact step_reuse. Qed.
 Print Assumptions C08_name_reuse.
 
@@ -55,8 +57,8 @@ Proof. exact run_total. Qed.
 Print Assumptions C08_names_total.
 
 Theorem C08_names_example :
-  exists s out, run [OName "a_b"; OName "a b"; ODim "lat" 5; ORole "bounds2" 2 "bounds";
-                     ORole "bounds2" 2 "bounds"; OName "lat"] n_init = Ok (s, out) /\
+  exists s out, run [OName "a_b"; OName "a b"; ODim "lat" 5; ORole "bounds2" 2 "bounds" false;
+                     ORole "bounds2" 2 "bounds" false; OName "lat"] n_init = Ok (s, out) /\
     map fst out = ["a_b"; "a_b_1"; "lat"; "bounds2"; "bounds2"; "lat_1"] /\
     issued out = ["a_b"; "a_b_1"; "lat"; "bounds2"; "lat_1"].
 Proof. exact names_example. Qed.
@@ -154,6 +156,38 @@ Theorem C08_globals_once :
   forall o fs, NoDup (fd_keys o) -> NoDup (map fst (file_globals c08_dofc o fs)).
 Proof. exact (file_globals_once c08_dofc). Qed.
 Print Assumptions C08_globals_once.
+
+(* ---- reference attributes ------------------------------------------------------ *)
+
+(* For every set of auxiliary coordinates of a field - with or without values,
+   properties, geometry nodes, grid mappings: every name in the data variable's
+   coordinates attribute and in the geometry container's node_coordinates,
+   coordinates and grid_mapping attributes is the name of a variable that the
+   writer created; no such attribute is empty; grid_mapping names one variable. *)
+Theorem C08_refs_resolve :
+  forall auxs,
+  attr_ok (created auxs) (coordinates_attr auxs) /\
+  forall c, container_of auxs = Ok (Some c) ->
+    attr_ok (created auxs) (Some (g_nodes c)) /\
+    attr_ok (created auxs) (g_coords c) /\
+    attr_ok (created auxs) (g_gm c) /\
+    (forall l, g_gm c = Some l -> length l = 1%nat).
+Proof. exact refs_resolve. Qed.
+Print Assumptions C08_refs_resolve.
+
+(* ... and every coordinate variable that was created is named by it. *)
+Theorem C08_coordinates_complete :
+  forall auxs a, In a auxs -> x_data a = true -> In (x_name a) (flat_map aux_listed auxs).
+Proof. exact coordinates_complete. Qed.
+Print Assumptions C08_coordinates_complete.
+
+Theorem C08_refs_example :
+  let auxs := [mkA "lon" true false (Some "x") ["datum"]; mkA "lat" true true (Some "y") ["datum"];
+               mkA "alt" false false (Some "z") []; mkA "name" true true None []] in
+  coordinates_attr auxs = Some ["lat"; "name"] /\
+  container_of auxs = Ok (Some (mkG ["x"; "y"; "z"] (Some ["lat"]) (Some ["datum"]))).
+Proof. exact refs_example. Qed.
+Print Assumptions C08_refs_example.
 
 (* ---- chunks, types ------------------------------------------------------------ *)
 Open Scope Z_scope.
